@@ -265,6 +265,13 @@ def is_benign_call(call: ast.Call) -> bool:
         return True
     if name == "str" and len(call.args) <= 1:
         return True
+    f = call.func
+    if isinstance(f, ast.Attribute) and f.attr in ("lower", "upper", "strip", "startswith", "endswith", "split", "rstrip", "lstrip") and len(call.args) <= 1 and not call.keywords:
+        recv = f.value
+        if isinstance(recv, ast.JoinedStr) or (isinstance(recv, ast.Constant) and isinstance(recv.value, str)):
+            return True
+        if isinstance(recv, ast.Call) and (ast.unparse(recv.func) == "str" or is_benign_call(recv) and isinstance(recv.func, ast.Attribute) and recv.func.attr in ("lower", "upper", "strip")):
+            return True  # a str method on a value that is a str by construction
     if name in ("anyio.CancelScope", "anyio.fail_after", "anyio.move_on_after", "anyio.get_cancelled_exc_class", "CancelScope", "fail_after"):
         return True  # constructing a cancel scope does not raise; its effects are at the with-exit
     return False
